@@ -26,8 +26,8 @@ type Gen struct {
 	// LeaseTokens, if set, are the token values imported transfers draw from
 	// (instead of far-future ones).
 	LeaseTokens []uint64
-	total        int
-	kinds        []OpKind
+	total       int
+	kinds       []OpKind
 }
 
 // DefaultKeys collide under DegenerateHash (lengths 0..3 mod 3) and are
